@@ -29,12 +29,8 @@ Inductive handle :=
 | At (b : nat) (off : Z).                   (* block b, byte offset off from its start (0 unless
                                                from_raw_part(s) recomputed it wrongly) *)
 
-(* a `*mut T` *)
-Inductive eptr :=
-| PNull
-| PDangling                                 (* NonNull::dangling(): address = align_of T *)
-| PWild                                     (* dangling - 1 element, wrapped *)
-| PElt (b : nat) (off : Z) (i : Z).         (* block b, data assumed at byte offset off, element i *)
+(* a `*mut T`: `eptr` (PNull | PDangling | PWild | PElt b off i) is defined in Eval.v, beside the
+   IR's values *)
 
 Inductive status := Fresh | Live | Out | Dropped.
    (* Fresh: identity not created yet; Out: handed to the caller *)
@@ -493,20 +489,23 @@ Section WithCfg.
     let '(b, bl) := x in
     put_block b (with_hdr bl n (h_cap bl) (h_align bl)).
 
-  (* data(): debug_assert!(!is_default()); buf + next_aligned(24, alignment()) *)
-  Definition data (v : nat) : M eptr :=
+  (* `header.len += n` through `header_mut()`: the length word is read again and written back
+     (no overflow is modelled here: len <= capacity <= isize::MAX / size_of::<T>()) *)
+  Definition add_len (v : nat) (n : Z) : M unit :=
     h <- vec_handle v ;;
-    match h with
-    | Sentinel =>
-        if release cfg then
-          (* release: pointer arithmetic on the sentinel; any use of the result is wild *)
-          ret PWild
-        else panic
-    | At b off =>
-        a <- alignment v ;;
-        o <- lift_opt (data_offset a) ;;
-        ret (PElt b (off + o) 0)
-    end.
+    x <- hdr_block h ;;
+    let '(b, bl) := x in
+    put_block b (with_hdr bl (h_len bl + n) (h_cap bl) (h_align bl)).
+
+  (* data(): debug_assert!(!is_default()); buf + next_aligned(24, alignment()) -- statement by
+     statement as in the source (EquivElem.data_equiv).  On the sentinel an optimized build does
+     pointer arithmetic on the address of a static: any use of the result is wild. *)
+  Definition data (v : nat) : M eptr :=
+    (if release cfg then ret tt else d <- is_default v ;; if d then panic else ret tt) ;;;
+    a <- alignment v ;;
+    o <- lift_opt (data_offset a) ;;
+    h <- vec_handle v ;;
+    ret (match h with Sentinel => PWild | At b off => PElt b (off + o) 0 end).
 
   Definition as_ptr (v : nat) : M eptr :=
     d <- is_default v ;; if d then ret PNull else data v.
@@ -642,7 +641,7 @@ Section WithCfg.
        l <- len v ;;
        d <- data v ;;
        slot_write (padd d l) value ;;;
-       set_len v (l + 1))
+       add_len v 1)
       (drop_elem value).
 
   Definition pop (v : nat) : M (option elem) :=
@@ -683,8 +682,9 @@ Section WithCfg.
     if l <=? index then panic else
     p0 <- as_ptr v ;;
     src <- slot_read (padd p0 (l - 1)) ;;
-    set_len v (l - 1) ;;;
-    let dst := padd p0 index in
+    add_len v (-1) ;;;
+    p1 <- as_ptr v ;;
+    let dst := padd p1 index in
     old <- slot_read dst ;;
     slot_write dst src ;;;
     hand_out old ;;;
